@@ -37,8 +37,10 @@ pub enum CAir {
     /// width 6: the triple (q0,q1,q2) is looked up in the table (t0,t1,t2) of the same AIR (local
     /// lookup, tuple wider than every global payload of the batch)
     Local3,
-    /// b = a * p with p a periodic column of period 4
+    /// b = a * p + q with p, q periodic columns of periods 4 and 2
     Periodic,
+    /// b = a^5: constraint degree 5, four quotient chunks
+    Quint,
     /// `Step` whose first a and last b are public values
     Pub,
     /// b = a * pre0 + pre1 with two preprocessed columns pre0[r] = r + 1, pre1[r] = 2r + 3 (their
@@ -47,6 +49,7 @@ pub enum CAir {
 }
 
 const PERIODIC: [u64; 4] = [2, 3, 5, 7];
+const PERIODIC2: [u64; 2] = [11, 13];
 
 impl<Val: Field> BaseAir<Val> for CAir {
     fn width(&self) -> usize {
@@ -71,10 +74,10 @@ impl<Val: Field> BaseAir<Val> for CAir {
         if matches!(self, Self::Prep { next: true, .. }) { vec![0] } else { vec![] }
     }
     fn num_periodic_columns(&self) -> usize {
-        usize::from(matches!(self, Self::Periodic))
+        if matches!(self, Self::Periodic) { 2 } else { 0 }
     }
     fn periodic_columns(&self) -> Vec<Vec<Val>> {
-        if matches!(self, Self::Periodic) { vec![PERIODIC.iter().map(|&x| Val::from_u64(x)).collect()] } else { vec![] }
+        if matches!(self, Self::Periodic) { vec![PERIODIC.iter().map(|&x| Val::from_u64(x)).collect(), PERIODIC2.iter().map(|&x| Val::from_u64(x)).collect()] } else { vec![] }
     }
 }
 
@@ -88,6 +91,10 @@ where
     let (a, b) = (row[0], row[1]);
     match air {
         CAir::Plain => builder.assert_zero(a + a - b),
+        CAir::Quint => {
+            let a: AB::Expr = a.into();
+            builder.assert_zero(a.clone() * a.clone() * a.clone() * a.clone() * a - b);
+        }
         CAir::Send | CAir::Recv => builder.assert_zero(a * a - b),
         CAir::Step => {
             let next = main.next_slice();
@@ -103,7 +110,8 @@ where
         CAir::Local3 => {}
         CAir::Periodic => {
             let p: AB::Expr = builder.periodic_values()[0].into();
-            builder.assert_zero(p * a - b);
+            let q: AB::Expr = builder.periodic_values()[1].into();
+            builder.assert_zero(p * a + q - b);
         }
         CAir::Prep { next, .. } => {
             let prep = builder.preprocessed().clone();
@@ -206,7 +214,8 @@ fn trace_for(air: CAir, rows: usize) -> RowMajorMatrix<F> {
             CAir::Plain => a + a,
             CAir::Send | CAir::Recv => a * a,
             CAir::Step | CAir::Pub => F::from_usize(2 * r + 1),
-            CAir::Periodic => a * F::from_u64(PERIODIC[r % 4]),
+            CAir::Periodic => a * F::from_u64(PERIODIC[r % 4]) + F::from_u64(PERIODIC2[r % 2]),
+            CAir::Quint => a * a * a * a * a,
             CAir::Prep { .. } => a * F::from_usize(r + 1) + F::from_usize(2 * r + 3),
             CAir::Local3 => unreachable!(),
         };
@@ -219,7 +228,10 @@ fn trace_for(air: CAir, rows: usize) -> RowMajorMatrix<F> {
 
 const PREP: CAir = CAir::Prep { log_rows: 0, next: false };
 const PREPN: CAir = CAir::Prep { log_rows: 0, next: true };
-const ORDERS: [&[CAir]; 20] = [
+const ORDERS: [&[CAir]; 23] = [
+    &[CAir::Quint],
+    &[CAir::Send, CAir::Quint, CAir::Recv],
+    &[CAir::Quint, PREPN, CAir::Periodic],
     &[PREP],
     &[CAir::Plain, PREPN, CAir::Send, CAir::Recv],
     &[PREP, CAir::Step, PREPN],
@@ -258,7 +270,8 @@ fn corrupt(v: &mut [Challenge], pos: usize, seed: u64) {
 }
 
 fn uni_kind(s: &FriShape, log_n: usize) -> CAir {
-    match (s.num_queries + s.cap_height + 3 * s.log_blowup + s.commit_pow_bits + log_n) % 6 {
+    match (s.num_queries + s.cap_height + 3 * s.log_blowup + s.commit_pow_bits + log_n) % 7 {
+        6 => CAir::Quint,
         0 => CAir::Plain,
         1 => CAir::Step,
         2 if log_n >= 2 => CAir::Periodic,
